@@ -385,7 +385,56 @@ def shard(ctx, shard_no, nshards, n):
         core.run_hypothesis(ctx, 'navigation', from_tape(lambda ch: {'schema': gen.schemas(ch, depth=3)}, 256), body_n, n // 3)
 
 
+def sub_nested_array(inp):
+    """inp: {'l1', 'l2', 'i', 'j', 'form'}: an array of arrays (declared lengths l1 outside, l2 inside; -1 = variable) and
+    literal indices i (outer) and j (inner): the check raises iff a literal index is not below a fixed length."""
+    l1, l2, i, j, form = inp['l1'], inp['l2'], inp['i'], inp['j'], inp['form']
+    schema = {'fields': {'rows': ('arr', ('arr', ('num', 'int32'), l2), l1), 'x': ('num', 'int32')}, 'consts': {}}
+    if form == 'element':
+        text = f'globally: no t {{rows[{i}][{j}] > x}}'
+    elif form == 'domain':
+        text = f'globally: no t {{forall k in rows[{i}]: @k > x}}'
+        j = None
+    elif form == 'in-index':
+        text = f'globally: no t {{rows[rows[{i}][{j}]][0] > x}}'
+    else:
+        text = f'globally: a as A {{x > 0}} causes t {{x < @A.rows[{i}][{j}]}}'
+    topics = {'t': schema, 'a': schema}
+    p, res = type_check(text, topics, {'A': 'a'} if form == 'alias' else {})
+    if p is None:
+        return 'rejected-by-parser'
+    bad = (l1 >= 0 and i >= l1) or (j is not None and l2 >= 0 and j >= l2)
+    if form == 'in-index' and l2 >= 0 and 0 >= l2:
+        bad = True
+    if bad and res[0] != 'exc':
+        raise Violation('nested_array', f'out-of-range-accepted:{form}', inp, f'{text!r} is accepted although rows is declared {"T[%s][%s]" % (l2 if l2 >= 0 else "", l1 if l1 >= 0 else "")} (inner length {l2}, outer length {l1})')
+    if not bad and res[0] == 'exc':
+        raise Violation('nested_array', f'in-range-rejected:{form}:{core.exc_sig(res[1])}', inp, f'{text!r} is rejected ({type(res[1]).__name__}: {str(res[1])[:200]}) although every literal index is within the declared lengths (inner {l2}, outer {l1})')
+    return 'out-of-range' if bad else 'in-range'
+
+
+SUBS['nested_array'] = sub_nested_array
+
+
+def run_nested_arrays(ctx):
+    with ctx.timed('nested-arrays'):
+        for l1 in (-1, 1, 2, 3):
+            for l2 in (-1, 1, 2):
+                for i in (0, 1, 2, 5):
+                    for j in (0, 1, 2):
+                        for form in ('element', 'domain', 'in-index', 'alias'):
+                            inp = {'l1': l1, 'l2': l2, 'i': i, 'j': j, 'form': form}
+                            try:
+                                r = sub_nested_array(inp)
+                            except Violation as v:
+                                ctx.report(v)
+                                r = 'violation'
+                            ctx.case(('nested-array', l1, l2, i, j, form), True, 'nested-array:' + r)
+    ctx.exhaustive['nested-array-table'] = True
+
+
 def run(ctx):
+    run_nested_arrays(ctx)
     try:
         sub_int_tokens()
     except Violation as v:
